@@ -31,9 +31,10 @@ Stored(o) == \E i \in DOMAIN store[KindOf(o)] : store[KindOf(o)][i] = o
 StoredSet == UNION {Range(store[k]) : k \in KindSet}
 
 \* binder options that the registry machine does not depend on: a covering choice, not a product
-Opts == <<[pattern |-> "max", audio |-> "none", cycles |-> 2],
-          [pattern |-> "min", audio |-> "path", cycles |-> 1],
-          [pattern |-> "alt", audio |-> "str",  cycles |-> 3]>>
+\* dir: the recordings' directory below the audio directory; the third one has a ".." component (legal, must round trip unchanged)
+Opts == <<[pattern |-> "max", audio |-> "none", cycles |-> 2, dir |-> <<>>],
+          [pattern |-> "min", audio |-> "path", cycles |-> 1, dir |-> <<"d1", "sub dir">>],
+          [pattern |-> "alt", audio |-> "str",  cycles |-> 3, dir |-> <<"site_a", "..", "shared">>]>>
 Init == /\ ct \in Range(CTypes) /\ sw \in SwSets /\ opt \in DOMAIN Opts
         /\ prog = SaveProgram(ct, sw, Variant)
         /\ ch = [o \in Range(AllIds) |-> Children(o, sw)]
